@@ -327,8 +327,8 @@ func c14IterTranscript(w *World, keys []string, rev bool, prefix string, calls [
 	return b.String(), pruned
 }
 
-// shard counts outside the sensible range: Open refuses them, or the database behaves like any other - it never
-// accepts the configuration and then panics on the first access
+// shard counts outside the sensible range and index types that do not exist: Open refuses them (with an error, not a
+// panic), or the database behaves like any other - it never accepts the configuration and then panics on the first access
 func runOddShard(cfg Cfg, ops []Op, res *TaskResult) string {
 	beginExecution()
 	w := NewWorld(cfg, keysAB)
@@ -359,8 +359,12 @@ func runOddShard(cfg Cfg, ops []Op, res *TaskResult) string {
 
 func c14OddShardTasks() []Task {
 	var tasks []Task
-	for _, sh := range []int{0, -1, -16, 5, 1000, 4096, 1 << 20} {
-		for _, ix := range []int8{1, 2, 3} {
+	for _, sh := range []int{0, -1, -16, 5, 1000, 4096, 1 << 20, 16} {
+		ixs := []int8{1, 2, 3}
+		if sh == 16 {
+			ixs = []int8{0, 4, -1, 127} // index types that do not exist (ShardNum sensible)
+		}
+		for _, ix := range ixs {
 			sh, ix := sh, ix
 			tasks = append(tasks, Task{Level: "odd-shard-counts", Name: fmt.Sprintf("odd shard count %d index %d", sh, ix), Fn: func(res *TaskResult) {
 				cfg := defaultCfg
